@@ -321,6 +321,40 @@ theorem mkMask_covers (s0 s1 : Int) (ms : List (Int → Int → Bool)) (l : List
 
 end Lentil
 
+/-! ### the views in terms of the generated wiring -/
+namespace Lentil
+variable {K : Type}
+
+theorem foldl_insertStep_some [Add K] [Mul K] (post : K → K) (w : K) (data : List (Fld K)) (out : Arr K) :
+    (data.map some).foldl (insertStep post w) (some out) = some (data.foldl (fun o f => insertArr f o w post) out) := by
+  induction data generalizing out with
+  | nil => rfl
+  | cons f fs ih => rw [List.map_cons, List.foldl_cons, List.foldl_cons]; exact ih _
+
+/-- **`Wavefront.field` inserts every field of `self.data` (no `reduce`), complex samples, weight 1, into zeros** — true
+of the generated `Gen.fieldWiring`; a change of that wiring in wavefront.py breaks this lemma -/
+theorem wfField_eq [Add K] [Mul K] [Zero K] (one : K) (s0 s1 : Int) (data : List (Fld K)) :
+    wfField one s0 s1 data = data.foldl (fun out f => insertArr f out one) (zerosArr s0 s1) := by
+  unfold wfField viewRun
+  simp only [Gen.fieldWiring, Bool.false_eq_true, if_false]
+  rw [foldl_insertStep_some]
+  rfl
+
+/-- **`Wavefront.insert` iterates `reduce(self.data)` and inserts `|.|^2` times the caller's weight** (`Gen.insertWiring`) -/
+theorem wfInsert_eq [Add K] [Mul K] [Zero K] (nsq : K → K) (data : List (Fld K)) (out : Arr K) (w : K) :
+    wfInsert nsq data out w = (reduce data).foldl (insertStep nsq w) (some out) := by
+  unfold wfInsert viewRun
+  simp only [Gen.insertWiring, if_true]
+
+/-- **`Wavefront.intensity` is `insert` into zeros with weight 1** (`Gen.intensityWiring`: through `reduce`, `intensity=True`) -/
+theorem wfIntensity_eq [Add K] [Mul K] [Zero K] (one : K) (nsq : K → K) (s0 s1 : Int) (data : List (Fld K)) :
+    wfIntensity one nsq s0 s1 data = wfInsert nsq data (zerosArr s0 s1) one := by
+  rw [wfInsert_eq]
+  unfold wfIntensity viewRun
+  simp only [Gen.intensityWiring, if_true, Bool.false_eq_true, if_false]
+
+end Lentil
+
 /-! ### concrete witnesses used by the non-vacuity examples and the known-finding lemmas of Props/C07, Props/C03 -/
 namespace Lentil.Witness
 open Lentil
